@@ -199,6 +199,22 @@ def run(ctx):
             impl = open(implp).read().splitlines()
             rc, mout = ctx.driver("e7", stdin_path=opsp)
             model = mout.splitlines()
+            if ctx.replay_in:
+                # --replay <file>: the streams are a deterministic product; show the wanted requests side by side
+                want = [l[4:] if l.startswith("op: ") else l for l in open(ctx.replay_in).read().splitlines()]
+                want = [norm_op(l) for l in want if l.startswith("gate ")]
+                for o, i, mline in zip(ops, impl, model):
+                    if norm_op(o) in want:
+                        print("op:    " + o[:600])
+                        print("impl:  " + i)
+                        print("model: " + mline)
+                        ctx.count_case(o)
+                        bad = property_fails_on(o, i)
+                        if bad:
+                            f = parse_op(o)
+                            ctx.violation("gate:%s:/%s" % (f["m"], "/".join(pattern_of(f["segs"]))), bad,
+                                          "op: %s\nimpl: %s\n" % (o, i))
+                continue
             for o, i in zip(ops, impl):
                 ctx.count_case(o, nontrivial=(" m=GET " not in o) or " p=636f6e666967," in o)
             for o, i in list(zip(ops, impl))[:2]:
@@ -218,6 +234,11 @@ def run(ctx):
         ctx.broken_without_input(ctx.broken_ties + corr_broken,
                                  "search: %d generated requests; the direct oracle found no unauthenticated request "
                                  "that was answered other than 403 or reached an upstream" % ctx.evaluations)
+
+
+def norm_op(op):
+    """An op line without the fields that vary with the route-table order (none today)."""
+    return " ".join(op.split())
 
 
 def pattern_of(segs):
